@@ -1279,7 +1279,86 @@ def _reshape_symbolic(a, shape):
             return a.at_index(tuple(reversed(src)) + tuple(idx[len(hd) :]))
 
         return SymArray(shape, fn, a.kind)
-    raise Unsupported(f"reshape {a.shape} -> {shape} with symbolic dims")
+    return _reshape_middle_block(a, shape)
+
+
+def _reshape_middle_block(a, shape):
+    """row-major reshape where src and dst agree (syntactically) on a common leading and a common
+    trailing run of dims and only the middle block is merged/split:
+        (L..., s1..sm, T...) -> (L..., d1..dn, T...)   with  prod(s) == prod(d)  (provably).
+    The middle dims may be symbolic.  In-range indices are assumed (as everywhere in this module):
+    a flat index built here from components (c_k < dim_k) is remembered per path so that splitting
+    it again over the same dims returns the components instead of div/mod terms."""
+    src, dst = tuple(a.shape), tuple(shape)
+    p = 0
+    while p < builtins.min(len(src), len(dst)) and _dim_same_syntactic(src[p], dst[p]):
+        p += 1
+    t = 0
+    while t < builtins.min(len(src), len(dst)) - p and _dim_same_syntactic(src[len(src) - 1 - t], dst[len(dst) - 1 - t]):
+        t += 1
+    smid = src[p : len(src) - t]
+    dmid = dst[p : len(dst) - t]
+    if not smid or not dmid:
+        raise Unsupported(f"reshape {a.shape} -> {shape} with symbolic dims")
+    ps, pd = _prod_dims(smid), _prod_dims(dmid)
+    if _is_pyint(ps) and _is_pyint(pd):
+        if ps != pd:
+            raise ShapeError(f"cannot reshape array of shape {a.shape} into shape {shape}")
+    elif not (_dim_same_syntactic(ps, pd) or (have_ctx() and ctx().implied(v_eq(ps, pd)))):
+        raise Unsupported(f"reshape {a.shape} -> {shape}: cannot establish equal sizes")
+    for d in tuple(smid) + tuple(dmid):
+        if not _is_pyint(d) and not (have_ctx() and ctx().implied(d >= 1)):
+            raise Unsupported("reshape over a possibly empty symbolic axis")
+
+    def dims_key(ds):
+        return tuple(d if _is_pyint(d) else ("z", d.re.get_id()) for d in ds)
+
+    def table():
+        c = ctx()
+        tb = getattr(c, "_flat_index_table", None)
+        if tb is None:
+            tb = c._flat_index_table = {}
+        return tb
+
+    def fn(idx):
+        mid = idx[p : p + len(dmid)]
+        if all(_is_pyint(i) for i in mid) and all(_is_pyint(d) for d in tuple(smid) + tuple(dmid)):
+            flat = 0
+            for i, d in zip(mid, dmid):
+                flat = flat * d + i
+            comps = []
+            for d in reversed(smid):
+                comps.append(flat % d)
+                flat //= d
+            comps = tuple(reversed(comps))
+            return a.at_index(tuple(idx[:p]) + comps + tuple(idx[p + len(dmid) :]))
+        # merge the dst components into a flat index (remember how it was built)
+        if len(dmid) == 1:
+            flat_raw = _raw_index(mid[0])
+        else:
+            flat = 0
+            for i, d in zip(mid, dmid):
+                flat = flat * d + _wrap_idx(i)
+            flat_raw = _raw_index(flat)
+            if is_z3(flat_raw) and have_ctx():
+                table()[(flat_raw.get_id(), dims_key(dmid))] = (flat_raw, tuple(mid))
+        # split the flat index over the src dims
+        if len(smid) == 1:
+            comps = (flat_raw,)
+        else:
+            hit = table().get((flat_raw.get_id(), dims_key(smid))) if (is_z3(flat_raw) and have_ctx()) else None
+            if hit is not None:
+                comps = tuple(hit[1])
+            else:
+                rest = _wrap_idx(flat_raw)
+                comps = []
+                for d in reversed(smid):
+                    comps.append(_raw_index(rest % d))
+                    rest = rest // d
+                comps = tuple(reversed(comps))
+        return a.at_index(tuple(idx[:p]) + comps + tuple(idx[p + len(dmid) :]))
+
+    return SymArray(dst, fn, a.kind)
 
 
 def stack(arrs, axis=0):
@@ -1562,6 +1641,29 @@ def meshgrid(*xs, indexing="xy"):
     return outs
 
 
+def _arange_real(start, stop, step, dtype=None):
+    """numpy.arange(start, stop, step) over the REALS with a provably positive symbolic/real step:
+    length ceil((stop-start)/step), values start + i*step (floating-point length rounding is not
+    modelled)."""
+    c = ctx()
+    st = SymNum.wrap(_num_parts(step)[0])
+    if not is_sym(st):
+        if not st > 0:
+            raise Unsupported("symbolic arange with non-positive step")
+    elif not c.implied(st > 0):
+        raise Unsupported("symbolic arange: step not provably positive")
+    q = (SymNum.wrap(_num_parts(stop)[0]) - start) / step
+    if not is_sym(q):
+        ln = builtins.max(0, math.ceil(q))
+    else:
+        if not c.implied(q >= 0):
+            raise Unsupported("symbolic arange: possibly negative length")
+        ln = -sym_floor(-q)
+    kinds = [_kind_of_value(v) for v in (start, stop, step)]
+    k = _dtype_kind(dtype) if dtype is not None else _join_kind(*kinds)
+    return SymArray((ln,), lambda idx: start + _wrap_idx(idx[0]) * step, k)
+
+
 def arange(*args, dtype=None):
     args = [_py_scalar(a.item() if isinstance(a, SymArray) else a) for a in args]
     if len(args) == 1:
@@ -1574,7 +1676,7 @@ def arange(*args, dtype=None):
         vals = _np.arange(start, stop, step)
         return from_numpy(vals, dtype)
     if not (_is_pyint(step) and step == 1):
-        raise Unsupported("symbolic arange with step != 1")
+        return _arange_real(start, stop, step, dtype)
     ln = stop - start
     if not isinstance(ln, SymNum) or not ln.is_int:
         raise Unsupported("symbolic arange over non-integers")
@@ -1867,11 +1969,87 @@ def eye(n, m=None, dtype=None):
     return SymArray((n, m), lambda idx: ite(v_eq(_wrap_idx(idx[0]), _wrap_idx(idx[1])), 1, 0) if not (_is_pyint(idx[0]) and _is_pyint(idx[1])) else (1 if idx[0] == idx[1] else 0), _dtype_kind(dtype) if dtype else "real")
 
 
-def cross(a, b, axis=-1):
+def cross(a, b, axisa=-1, axisb=-1, axisc=-1, axis=None):
+    """jnp.cross for 3-vectors: `axis` (if given) overrides axisa/axisb/axisc (numpy/JAX semantics)."""
     a, b = asarray(a), asarray(b)
-    a = moveaxis(a, axis, -1)
-    b = moveaxis(b, axis, -1)
+    if axis is not None:
+        axisa = axisb = axisc = axis
+    a = moveaxis(a, axisa, -1)
+    b = moveaxis(b, axisb, -1)
+    if not (dim_is(a.shape[-1], 3) and dim_is(b.shape[-1], 3)):
+        raise Unsupported("cross of vectors that are not 3-dimensional")
     ax, ay, az = a[..., 0], a[..., 1], a[..., 2]
     bx, by, bz = b[..., 0], b[..., 1], b[..., 2]
     res = stack([ay * bz - az * by, az * bx - ax * bz, ax * by - ay * bx], axis=-1)
-    return moveaxis(res, -1, axis)
+    return moveaxis(res, -1, axisc)
+
+
+def gradient(f, *varargs, axis=None, edge_order=None):
+    """jax.numpy.gradient for unit / scalar spacing: second-order central differences in the interior,
+    first-order one-sided differences at the two ends of every requested axis.  Returns one array
+    for a single axis and a list of arrays otherwise (jnp semantics); every requested axis must
+    have at least 2 elements (ValueError otherwise, as in jnp)."""
+    if edge_order is not None:
+        raise NotImplementedError("The 'edge_order' argument to jnp.gradient is not supported.")
+    a = asarray(f)
+    if axis is None:
+        axes = tuple(range(a.ndim))
+    else:
+        axes = tuple(_norm_axis(x, a.ndim) for x in ([axis] if _is_pyint(axis) else list(axis)))
+    if len(axes) == 0:
+        return []
+    spacing = []
+    for h in varargs:
+        if isinstance(h, SymArray):
+            if h.ndim != 0:
+                raise Unsupported("jnp.gradient with coordinate-array spacing")
+            h = h.item()
+        if not (is_sym(h) or isinstance(h, (int, float, Fraction))):
+            raise Unsupported("jnp.gradient with non-scalar spacing")
+        spacing.append(h)
+    for x in axes:
+        n = a.shape[x]
+        small = (n < 2) if _is_pyint(n) else bool(n < 2)
+        if small:
+            raise ValueError("Shape of array too small to calculate a numerical gradient, at least 2 elements are required.")
+    if len(spacing) == 0:
+        hs = [1] * len(axes)
+    elif len(spacing) == 1:
+        hs = spacing * len(axes)
+    elif len(spacing) == len(axes):
+        hs = spacing
+    else:
+        raise TypeError(f"Invalid number of spacing arguments {len(spacing)} for {axis=}")
+    kind = _join_kind(a.kind if a.kind != "bool" else "int", "real")
+
+    def along(ax, h):
+        n = a.shape[ax]
+
+        def rd(idx, i):
+            return _bool_to_num(a.at_index(idx[:ax] + (i,) + idx[ax + 1 :]))
+
+        def fn(idx):
+            iw = _wrap_idx(idx[ax])
+            at_lo = v_eq(iw, 0)
+            at_hi = v_eq(iw, n - 1)
+            if at_lo is True:
+                v = rd(idx, 1) - rd(idx, 0)
+            elif at_hi is True:
+                v = rd(idx, _raw_index(iw)) - rd(idx, _raw_index(iw - 1))
+            elif at_lo is False and at_hi is False:
+                v = (rd(idx, _raw_index(iw + 1)) - rd(idx, _raw_index(iw - 1))) * Fraction(1, 2)
+            else:
+                # position not decided syntactically: the three stencil reads i-1, i, i+1 (the read
+                # that falls outside the axis sits in a branch that is not selected)
+                vm = rd(idx, _raw_index(iw - 1))
+                v0 = rd(idx, _raw_index(iw))
+                vp = rd(idx, _raw_index(iw + 1))
+                v = ite(at_lo, vp - v0, ite(at_hi, v0 - vm, (vp - vm) * Fraction(1, 2)))
+            if not (_is_pyint(h) and h == 1):
+                v = _vtruediv(v, h)
+            return v
+
+        return SymArray(a.shape, fn, kind)
+
+    res = [along(ax, h) for ax, h in zip(axes, hs)]
+    return res[0] if len(axes) == 1 else res
